@@ -59,6 +59,7 @@ type Violation struct {
 	Vector   []VecEntry
 	Decision []int64
 	Known    string // id of the known finding that covers it, if any
+	Sched    []string // order in which rt.SchedPoint tags were passed
 	Stack    string
 }
 
@@ -145,6 +146,7 @@ type Run struct {
 	pbMsgs   []Value
 	makeSites map[string]map[int]*Term
 	preempts int
+	schedTrace []string // rt.SchedPoint tags in the order they were passed
 	race     raceState
 	maxPreempt int
 	zeroCache map[types.Type]Value
